@@ -298,9 +298,11 @@ func boundsRows(cond ssa.Value, rows, height ssa.Value) bool {
 			return true, 0
 		}
 		if add, ok := v.(*ssa.BinOp); ok && add.Op == token.ADD {
-			if c, ok := add.X.(*ssa.Call); ok && isBuiltinCall(&c.Call, "len") && c.Call.Args[0] == rows {
-				if k, ok := constInt(add.Y); ok {
-					return true, k
+			for _, pr := range [][2]ssa.Value{{add.X, add.Y}, {add.Y, add.X}} {
+				if c, ok := pr[0].(*ssa.Call); ok && isBuiltinCall(&c.Call, "len") && c.Call.Args[0] == rows {
+					if k, ok := constInt(pr[1]); ok {
+						return true, k
+					}
 				}
 			}
 		}
@@ -317,13 +319,20 @@ func boundsRows(cond ssa.Value, rows, height ssa.Value) bool {
 		}
 		return false, 0
 	}
+	op := bin.Op
 	okL, kl := isLen(bin.X)
 	okH, kh := isHeight(bin.Y)
 	if !okL || !okH {
-		return false
+		// the mirrored form: height-1 > len(rows)
+		okL, kl = isLen(bin.Y)
+		okH, kh = isHeight(bin.X)
+		op = swapOp(op)
+		if !okL || !okH {
+			return false
+		}
 	}
 	slack := kl + kh // len(rows) + slack  op  height
-	switch bin.Op {
+	switch op {
 	case token.LSS:
 		return slack >= 1
 	case token.LEQ:
